@@ -13,6 +13,7 @@ import (
 
 	"github.com/go-shiori/dom"
 	"github.com/markusmobius/go-domdistiller/data"
+	"github.com/markusmobius/go-domdistiller/internal/converter"
 	"github.com/markusmobius/go-domdistiller/internal/domutil"
 	"github.com/markusmobius/go-domdistiller/internal/extractor"
 	"github.com/markusmobius/go-domdistiller/internal/extractor/embed"
@@ -216,4 +217,111 @@ func VerifMarkup(root *html.Node) ([]VerifSource, data.MarkupInfo) {
 			Images: a.Images(), Article: a.Article(), OptOut: a.OptOut()})
 	}
 	return out, ps.MarkupInfo()
+}
+
+// VerifEvent is one call the DOM converter made on the document builder.
+type VerifEvent struct {
+	Op       string // skip, start, end, text, br, table, tag, embed
+	Vid      string // data-vid of the element argument
+	Data     string // text node data
+	Flush    bool   // start: the action GetActionForElement computes for the element
+	IsAnchor bool
+	Changes  bool
+	TagName  string
+	TagStart bool
+	Kind     string // embed: element type (image, figure, video, embed)
+}
+
+type verifRecBuilder struct {
+	inner  *webdoc.WebDocumentBuilder
+	Events []VerifEvent
+}
+
+func (b *verifRecBuilder) SkipNode(e *html.Node) {
+	b.Events = append(b.Events, VerifEvent{Op: "skip", Vid: verifVid(e)})
+	b.inner.SkipNode(e)
+}
+func (b *verifRecBuilder) StartNode(e *html.Node) {
+	a := webdoc.GetActionForElement(e)
+	b.Events = append(b.Events, VerifEvent{Op: "start", Vid: verifVid(e), Flush: a.Flush, IsAnchor: a.IsAnchor, Changes: a.ChangesTagLevel, TagName: e.Data})
+	b.inner.StartNode(e)
+}
+func (b *verifRecBuilder) EndNode() {
+	b.Events = append(b.Events, VerifEvent{Op: "end"})
+	b.inner.EndNode()
+}
+func (b *verifRecBuilder) AddTextNode(n *html.Node) {
+	b.Events = append(b.Events, VerifEvent{Op: "text", Data: n.Data})
+	b.inner.AddTextNode(n)
+}
+func (b *verifRecBuilder) AddLineBreak(n *html.Node) {
+	b.Events = append(b.Events, VerifEvent{Op: "br", Vid: verifVid(n)})
+	b.inner.AddLineBreak(n)
+}
+func (b *verifRecBuilder) AddDataTable(e *html.Node) {
+	b.Events = append(b.Events, VerifEvent{Op: "table", Vid: verifVid(e)})
+	b.inner.AddDataTable(e)
+}
+func (b *verifRecBuilder) AddTag(t *webdoc.Tag) {
+	b.Events = append(b.Events, VerifEvent{Op: "tag", TagName: t.Name, TagStart: t.Type == webdoc.TagStart})
+	b.inner.AddTag(t)
+}
+func (b *verifRecBuilder) AddEmbed(e webdoc.Element) {
+	ev := VerifEvent{Op: "embed", Kind: e.ElementType()}
+	switch x := e.(type) {
+	case *webdoc.Figure:
+		ev.Vid = verifVid(x.Element)
+	case *webdoc.Image:
+		ev.Vid = verifVid(x.Element)
+	case *webdoc.Video:
+		ev.Vid = verifVid(x.Element)
+	case *webdoc.Embed:
+		ev.Vid = verifVid(x.Element)
+	}
+	b.Events = append(b.Events, ev)
+	b.inner.AddEmbed(e)
+}
+
+// VerifConvert runs the real DOM converter on root (the element the extractor would convert)
+// with a recording document builder in front of the real one; returns the calls made and
+// the elements the real builder produced.
+func VerifConvert(root *html.Node, pageURL *nurl.URL, skipUnlikely bool) ([]VerifEvent, []VerifElem) {
+	ce := extractor.NewContentExtractor(root, pageURL, nil)
+	rec := &verifRecBuilder{inner: webdoc.NewWebDocumentBuilder(ce.WordCounter, pageURL)}
+	flags := converter.Default
+	if skipUnlikely {
+		flags = converter.SkipUnlikelies
+	}
+	document := dom.QuerySelector(root, "html")
+	if document == nil {
+		document = root
+	}
+	converter.NewDomConverter(flags, rec, pageURL, nil).Convert(document)
+	return rec.Events, VerifDumpDoc(rec.inner.Build())
+}
+
+// VerifNodeAtoms: what the converter's regexps and helpers answer for one element.
+type VerifNodeAtoms struct {
+	StyleDisplay   string
+	VisHidden      bool
+	Byline         bool
+	Unlikely       bool
+	Maybe          bool
+	WithoutContent bool
+	Visible        bool
+}
+
+func VerifElementAtoms(n *html.Node) VerifNodeAtoms {
+	style := dom.GetAttribute(n, "style")
+	u, m := converter.VerifUnlikely(n)
+	return VerifNodeAtoms{StyleDisplay: domutil.VerifStyleDisplay(style), VisHidden: domutil.VerifVisHidden(style),
+		Byline: converter.VerifIsByline(n), Unlikely: u, Maybe: m, WithoutContent: converter.VerifWithoutContent(n),
+		Visible: domutil.IsProbablyVisible(n)}
+}
+
+// VerifTextAtoms: blankness and word count of a text node's data under the word counter the
+// extractor selects for root.
+func VerifTextAtoms(root *html.Node) func(string) (bool, int) {
+	ce := extractor.NewContentExtractor(root, nil, nil)
+	return func(s string) (bool, int) { return stringutil.IsStringAllWhitespace(s), ce.WordCounter.Count(s) }
 }
